@@ -34,12 +34,38 @@ var coderLens = []int{2, 4, 14, 16, 18, 30, 32, 34, 46, 48, 62, 64, 66, 96, 100,
 
 func genShards(r *Run, n, length int) [][]byte {
 	g := prng{s: r.T.Draw64(0, "shard-seed")}
+	structured := r.T.Bool(1, 4, "structured-shards")
 	out := make([][]byte, n)
 	for i := range out {
 		out[i] = make([]byte, length)
-		for k := range out[i] {
-			out[i][k] = byte(g.next())
+		kind := 0
+		if structured {
+			kind = int(g.next() % 5)
 		}
+		switch kind {
+		case 0:
+			for k := range out[i] {
+				out[i][k] = byte(g.next())
+			}
+		case 1: // all zero
+		case 2: // one repeated 16-bit word, low or high byte possibly zero
+			lo, hi := byte(g.next()), byte(g.next())
+			if g.next()%2 == 0 {
+				lo = 0
+			}
+			for k := range out[i] {
+				if k%2 == 0 {
+					out[i][k] = lo
+				} else {
+					out[i][k] = hi
+				}
+			}
+		default: // runs of words and random stretches
+			copy(out[i], expandContent(ckWordRuns, g.next(), length, 16))
+		}
+	}
+	if structured {
+		r.Probe("structured-shards")
 	}
 	return out
 }
